@@ -19,7 +19,7 @@ for (g, b), (rc, tl) in sorted(conf.items()):
     shutil.copy(f"{src}/patch.diff", f"{dst}/patch.diff")
     if os.path.exists(f"{src}/difftest.py"):
         shutil.copy(f"{src}/difftest.py", f"{dst}/difftest.py")
-    meta = json.load(open(f"{src}/meta.json"))
+    meta = json.load(open(f"{src}/meta.json")) if os.path.exists(f"{src}/meta.json") else {"summary": "(the authoring sub-agent was stopped before it wrote its meta file; the patch and its differential test are as it left them)"}
     meta["id"] = sid
     meta["confirmed_by"] = {"how": "tools/confirm_refacs.sh (SUBDIR=_benign) in a scratch git worktree of /repo (removed afterwards): full test suite with the patch applied",
                             "tests_with_patch": tl}
